@@ -124,6 +124,10 @@ func (pres *Presence) UnmarshalXML(d *xml.Decoder, start xml.StartElement) error
 					err = d.DecodeElement(&pres.Priority, &tt)
 				case "error":
 					err = d.DecodeElement(&pres.Error, &tt)
+				default:
+					// Unknown child: consume it entirely, so that nothing nested in it is
+					// mistaken for a child (or for the end) of this stanza.
+					err = d.Skip()
 				}
 				if err != nil {
 					return err
